@@ -263,6 +263,7 @@ type stats struct {
 	Points       int64          `json:"sched_points,omitempty"`
 	Switches     int64          `json:"switches,omitempty"`
 	Preempts     int64          `json:"preemptions,omitempty"`
+	Funcs        map[string]int `json:"functions_entered,omitempty"`
 }
 
 func (s *stats) add(o *stats) {
@@ -284,10 +285,13 @@ func (s *stats) add(o *stats) {
 	for k, v := range o.Probes {
 		s.Probes[k] += v
 	}
+	for k, v := range o.Funcs {
+		s.Funcs[k] += v
+	}
 }
 
 func newStats() *stats {
-	return &stats{Yields: map[string]int{}, Faults: map[string]int{}, Probes: map[string]int{}}
+	return &stats{Yields: map[string]int{}, Faults: map[string]int{}, Probes: map[string]int{}, Funcs: map[string]int{}}
 }
 
 type report struct {
@@ -774,6 +778,23 @@ func writeEvidence(prop, tier string, seed uint64, executed uint64, nontriv map[
 		"instrumentation":                    b.instrInfo,
 		"components_real":                    []string{"Compile/CompileWithNS/MustCompile, parser, builder, every query type, Select, Evaluate, NodeIterator, operators, functions, loadingCache, getRegexp, builderPool users (all of /repo's current working tree, instrumented copy: import \"sync\" -> shim, function-entry yields)"},
 		"components_stub":                    []string{"the document and its NodeNavigator (harness-owned by the API's design)", "the loadFunc of client-constructed caches (wraps regexp.Compile, adds yields and injected failures)", "sync.RWMutex / sync.Pool announce their operations through the shim (real primitives underneath; deterministic LIFO pool variant in half of the runs)"},
+	}
+	// reach over the package's functions (function-entry events inside simulated operations)
+	if fb, err := os.ReadFile(filepath.Join(scratch, "xpath", "verif_funcs.txt")); err == nil {
+		var never []string
+		total := 0
+		for _, name := range strings.Fields(string(fb)) {
+			if strings.HasPrefix(name, "Verif") {
+				continue
+			}
+			total++
+			if st.Funcs[name] == 0 {
+				never = append(never, name)
+			}
+		}
+		cov["package_functions_instrumented"] = total
+		cov["package_functions_entered"] = total - len(never)
+		cov["package_functions_never_entered"] = never
 	}
 	ev := map[string]interface{}{
 		"property_id": prop,
